@@ -51,6 +51,7 @@ class Run:
         s.paths = None
         s.pool = None
         s.pool_std = None
+        s.unfinished = []
         s.world = None
         s.evidence = {
             'property_id': pid, 'tier': tier, 'seed': seed, 'level': 'model_checking',
@@ -126,7 +127,8 @@ class Run:
                 s.log('[explore] ' + e)
             raise Inconclusive(f'exploration {name} could not be encoded: ' + st['errors'][0][:500])
         if not st['complete'] and required:
-            raise Inconclusive(f'exploration {name} did not finish within its time cap ({seconds}s)')
+            # keep going: the other explorations may still find a (confirmable) violation; without one the run is inconclusive
+            s.unfinished.append(f'exploration {name} did not finish within its time cap ({seconds}s)')
         return st
 
     def cross_check(s, limit=150):
@@ -265,7 +267,9 @@ def main(pid, tier, seed, replay=None):
             print('    ' + str(v.get('what', ''))[:300], flush=True)
         if confirmed:
             code = 1
-        run.finish(confirmed, known_hits, result.get('exhaustive', False))
+        elif run.unfinished:
+            raise Inconclusive(run.unfinished[0] + (f' (and {len(run.unfinished) - 1} more)' if len(run.unfinished) > 1 else ''))
+        run.finish(confirmed, known_hits, result.get('exhaustive', False) and not run.unfinished)
         if code == 0:
             run.log(f'[{pid}] held on everything explored ({run.evidence["coverage"]["states"]} paths, '
                     f'{run.evidence["coverage"]["solver_queries"]} solver queries, {run.evidence["wall_s"]}s)')
